@@ -67,6 +67,16 @@ pub fn log_start() {
     LOG.with(|l| l.borrow_mut().clear());
     LOG_ON.with(|l| l.set(true));
 }
+/// Insert a marker (clock id -100) into the read log (e.g. "the request to chronyd was issued here").
+pub fn log_mark() {
+    if LOG_ON.with(|l| l.get()) {
+        LOG.with(|l| {
+            if let Ok(mut l) = l.try_borrow_mut() {
+                l.push((-100, 0))
+            }
+        });
+    }
+}
 pub fn log_take() -> Vec<(i32, i128)> {
     LOG_ON.with(|l| l.set(false));
     LOG.with(|l| std::mem::take(&mut *l.borrow_mut()))
